@@ -88,3 +88,15 @@ Theorem C05_qc_flag_does_not_change_output : forall in_fmt nm text out_fmt t r,
   process_fh in_fmt nm text out_fmt false = Ok (t, []).
 Proof. exact Proofs.AsmFormat.qc_flag_does_not_change_output. Qed.
 Print Assumptions C05_qc_flag_does_not_change_output.
+
+(* the property's last clause at the level of the COMMAND: asm-format AGP -> TPF,
+   then asm-format TPF -> AGP on what it wrote, gives the canonical AGP of the
+   same assembly without its tags -- nothing else changes *)
+Theorem C05_asm_format_agp_tpf_agp : forall nm nm' a t,
+  agp_wf a -> tpf_wf (drop_tags a) -> format_agp a = Ok t ->
+  exists t_tpf t2,
+    process_fh (s "AGP") nm t (s "TPF") false = Ok (t_tpf, [])
+    /\ process_fh (s "TPF") nm' t_tpf (s "AGP") false = Ok (t2, [])
+    /\ format_agp (drop_tags a) = Ok t2.
+Proof. exact Proofs.AsmFormat.asm_format_agp_tpf_agp. Qed.
+Print Assumptions C05_asm_format_agp_tpf_agp.
